@@ -357,7 +357,9 @@ func (x *Interp) execStmt(fr *frame, st *Stmt) {
 				known = i
 			}
 		}
-		if known < 0 {
+		if known < 0 && fr.where != "cleanup" && fr.where != "ccleanup" {
+			// contexts taken during cleanup are fresh, already cancelled ones by design: they are checked on the spot
+			// and not tracked (tracking them made every later cleanup sample all of them: quadratic traces)
 			fr.sc.ctxs = append(fr.sc.ctxs, ctx)
 			known = len(fr.sc.ctxs) - 1
 		}
